@@ -202,17 +202,38 @@ def runHandler (s : Script) (c : Caps) : Result :=
   else
     ⟨scriptResp s, 1, some c, false, flushRequested s && c.canFlush, s.info, s.status.isSome⟩
 
-/-- What a layer's writer does with the `WriteHeader` calls it receives.  Only `bufferWriter` is not a relay: it keeps the
-code of the *last* call (`WriteHeader` just stores it; `Write` sets 200 only while the code is still 0) and issues one
-`WriteHeader(code)` at the end.  So 1xx responses are swallowed when a final status follows; when none follows the stored code
-stays 1xx, `expectBody` is false and the body is dropped while `net/http` finishes with the implicit 200. -/
+/-- `http.Header.Get` on the (canonical-key) header list: first value or "" -/
+def hget : List Header → String → String
+  | [], _ => ""
+  | (k, v) :: hs, key => if k = key then v else hget hs key
+
+/-- `bufferWriter.expectBody` (`buffer/buffer.go:276-295`) for a non-HEAD request (the harness sends GET/POST; for HEAD
+`net/http` sends no body whatever the handler writes): no body for 1xx/204/304, for `Content-Length: 0`, and for a non-empty
+`Grpc-Status` other than "0" (deliberate gRPC support: an error status carried in headers has no message). -/
+def expectBody (code : Nat) (hs : List Header) : Bool :=
+  !((decide (100 ≤ code) && decide (code < 200)) || code == 204 || code == 304)
+  && !(hget hs "Content-Length" == "0")
+  && !(hget hs "Grpc-Status" != "" && hget hs "Grpc-Status" != "0")
+
+/-- the code `bufferWriter` holds when the handler returns: the last `WriteHeader` call it saw, or the 200 that `Write` sets
+while the code is still 0 (results without explicit status carry 200 in `resp.status`) -/
+def bwCode (r : Result) : Nat :=
+  if r.explicit then r.resp.status
+  else match r.infos.getLast? with
+    | some c => c
+    | none => 200
+
+/-- What a layer's writer does with the `WriteHeader` calls and the body it receives.  Only `bufferWriter` is not a relay:
+it keeps the code of the *last* `WriteHeader` call (a 1xx stays if no final status follows), copies the body only if
+`expectBody`, and issues one `WriteHeader(code)` at the end (so 1xx responses are swallowed when a final status follows). -/
 def relayHeaderCalls (l : LayerCfg) (r : Result) : Result :=
   match l.kind with
   | .buffer =>
-    if r.explicit then { r with infos := [] }
+    let r' : Result := if expectBody (bwCode r) r.resp.headers then r else { r with resp := { r.resp with body := [] } }
+    if r.explicit then { r' with infos := [] }
     else match r.infos.getLast? with
-      | some c => { r with infos := [c], resp := { r.resp with body := [] } }
-      | none => { r with explicit := true }
+      | some c => { r' with infos := [c] }
+      | none => { r' with explicit := true }
   | _ => r
 
 /-- `IsNetworkError()` of `buffer/threshold.go`: the recorded response code is 502 or 504 -/
